@@ -12,7 +12,7 @@ ALL = {
    note=EX+"Assumes no division by a zero scalar.",
    technique="property-based testing: exact-field differential oracle (Q, Fp) + algebraic laws", design="6/C01"),
  "C02": dict(
-   text="Exploration. determinant/invert/transpose/swap laws evaluated exactly over Q and Fp on generic matrices and on *constructed* singular (rank n-1 by column and by row combination), low-rank and tiny-determinant matrices; invert()==None is compared with the Leibniz determinant being exactly 0; swap/replace_col index pairs are enumerated completely per case; native f64/f32 matrices diag(2^a)*U with ordinary, subnormal, underflowed and huge determinants must invert exactly when determinant() != 0. Sampled search, not a proof; exact arithmetic means no tolerance can hide or invent a failure. Exactly singular float matrices (2x2, 3x3: one column an exact power-of-two multiple of another, generic inexact entries) must have determinant() == 0 and no inverse. Rotations / diagonal matrices perturbed by 1e-14..1e-4 (invert_near_special-f64) must be inverted to rounding accuracy. Ill-conditioned but exact integer matrices (illconditioned_native-*) must have determinant exactly +-1 and an exact inverse. transpose()/transpose_self() are compared bit for bit on f64 matrices with signed zeros (transpose_native-f64).",
+   text="Exploration. determinant/invert/transpose/swap laws evaluated exactly over Q and Fp on generic matrices and on *constructed* singular (rank n-1 by column and by row combination), low-rank and tiny-determinant matrices; invert()==None is compared with the Leibniz determinant being exactly 0; swap/replace_col index pairs are enumerated completely per case; native f64/f32 matrices diag(2^a)*U with ordinary, subnormal, underflowed and huge determinants must invert exactly when determinant() != 0. Sampled search, not a proof; exact arithmetic means no tolerance can hide or invent a failure. Exactly singular float matrices (2x2, 3x3: one column an exact power-of-two multiple of another, generic inexact entries) must have determinant() == 0 and no inverse. Rotations / diagonal matrices perturbed by 1e-14..1e-4 (invert_near_special-f64) must be inverted to rounding accuracy. Ill-conditioned but exact integer matrices (illconditioned_native-*) must have determinant exactly +-1 and an exact inverse. transpose()/transpose_self() are compared bit for bit on f64 matrices with signed zeros (transpose_native-f64). invert/determinant are checked for covariance under power-of-two row and column scaling (invert_scaled-f64).",
    note=EX+"ulps-equality degenerates to equality in Q/Fp. Memory safety of the unchecked reads is only covered by the ASan fuzz build in the thorough tier.",
    technique="property-based testing: exact-field reference model (Leibniz determinant), constructed singular classes, exhaustive index enumeration", design="6/C02"),
  "C03": dict(
@@ -20,7 +20,7 @@ ALL = {
    note=EX+"Integer operands are constructed inside the no-overflow range; divisors non-zero.",
    technique="property-based testing: per-component reference + algebraic identities over exact fields and integers", design="6/C03"),
  "C04": dict(
-   text="Exploration. Hamilton product vs an independent 4x4 left-multiplication-matrix reference, ring laws, conjugate/norm/inverse laws and the rotation formula q*v for arbitrary and *exactly unit* (p^2/|p|^2) quaternions, all with == over Q and Fp (operands aliased now and then), plus an f64 sub-check of product and rotation against the reference on quaternions within rounding of +-1, tiny vector parts and wide magnitudes. Every operation is also taken through reference operands, +=, -=, *=, /=, %=, scalar on the left (f64), single/empty Sum and Product. Product/Sum over lists are compared bit for bit with the left folds on nearly-unit quaternions. |2^k q|^2 = 4^k |q|^2 bit for bit and q*invert(q) = 1 for |k| <= 500.",
+   text="Exploration. Hamilton product vs an independent 4x4 left-multiplication-matrix reference, ring laws, conjugate/norm/inverse laws and the rotation formula q*v for arbitrary and *exactly unit* (p^2/|p|^2) quaternions, all with == over Q and Fp (operands aliased now and then), plus an f64 sub-check of product and rotation against the reference on quaternions within rounding of +-1, tiny vector parts and wide magnitudes. Every operation is also taken through reference operands, +=, -=, *=, /=, %=, scalar on the left (f64), single/empty Sum and Product. Product/Sum over lists are compared bit for bit with the left folds on nearly-unit quaternions. |2^k q|^2 = 4^k |q|^2 bit for bit and q*invert(q) = 1 for |k| <= 500. Division by scalars over the whole range (subnormal divisors included) is bit-exact per component; quaternions with a subnormal squared norm are still inverted.",
    note=EX,
    technique="property-based testing: exact-field differential oracle + algebraic laws", design="6/C04"),
  "C05": dict(
@@ -40,7 +40,7 @@ ALL = {
    note=EX,
    technique="property-based testing: per-component reference + affine laws over exact fields", design="6/C12"),
  "C13": dict(
-   text="Exploration. Modular clauses (normalize/normalize_signed/opposite/bisect/turn_div_k, arithmetic, Sum) are decided exactly on Deg<Q> and Rad<Q>; range membership is searched over raw f32/f64 bit patterns plus classes aimed at tiny negatives, whole turns, huge and subnormal values; unit conversion within 4 eps (and the absolute factor, so a consistently wrong constant pair is caught); trig and inverse trig against libm evaluated in f64 on the exact input value, with a conditioning-derived tolerance. Trigonometry is also evaluated at exactly the library's named angles (turn_div_2/3/4/6, full_turn, zero and small multiples).",
+   text="Exploration. Modular clauses (normalize/normalize_signed/opposite/bisect/turn_div_k, arithmetic, Sum) are decided exactly on Deg<Q> and Rad<Q>; range membership is searched over raw f32/f64 bit patterns plus classes aimed at tiny negatives, whole turns, huge and subnormal values; unit conversion within 4 eps (and the absolute factor, so a consistently wrong constant pair is caught); trig and inverse trig against libm evaluated in f64 on the exact input value, with a conditioning-derived tolerance. Trigonometry is also evaluated at exactly the library's named angles (turn_div_2/3/4/6, full_turn, zero and small multiples). An angle already inside the target range is returned unchanged to 2 eps relative.",
    note=EX+"libm is the trusted oracle for the transcendental clauses; poles avoided by 1e-3; bisect of numerically opposite angles accepts either bisector.",
    technique="property-based testing: exact modular-arithmetic oracle (Q) + raw-bit-pattern range search + libm differential", design="6/C13"),
  "C15": dict(
@@ -52,11 +52,11 @@ ALL = {
    note=EX+"f64 components log-uniform in 1e-3..1e3 (no over/underflow of squares); non-zero lengths by construction.",
    technique="property-based testing: exact rational-length oracle + f64 validity predicates on conditioned pair classes", design="6/C11"),
  "C14": dict(
-   text="Exploration. lerp = a + (b-a)t decided exactly over Q and Fp for every VectorSpace implementation (Vector1-4, Quaternion, Matrix2-4). nlerp/slerp checked on f64 unit-quaternion pairs in the classes generic / nearly parallel / nearly opposite / on the 0.9995 hand-over (delta 1e-12..1e-2, both signs of the dot product) / orthogonal / equal / exactly opposite with t in {0,1} and U[0,1], against the statement's validity predicate: unit, in the plane of a and b', on the shorter arc, exact endpoints, slerp arc = t*Omega within 1e-9 (1e-5 above the hand-over). Structurally orthogonal pairs (disjoint supports, zeros of either sign) are a required class for which the statement's 'a.b >= 0' case is demanded exactly. lerp is also checked in f64 (amounts up to 1e17, equal and nearly equal operands) and on integer vectors over the whole range (outcome: value or overflow panic). nlerp/slerp are also checked on Quaternion<f32> with tolerances of their own.",
+   text="Exploration. lerp = a + (b-a)t decided exactly over Q and Fp for every VectorSpace implementation (Vector1-4, Quaternion, Matrix2-4). nlerp/slerp checked on f64 unit-quaternion pairs in the classes generic / nearly parallel / nearly opposite / on the 0.9995 hand-over (delta 1e-12..1e-2, both signs of the dot product) / orthogonal / equal / exactly opposite with t in {0,1} and U[0,1], against the statement's validity predicate: unit, in the plane of a and b', on the shorter arc, exact endpoints, slerp arc = t*Omega within 1e-9 (1e-5 above the hand-over). Structurally orthogonal pairs (disjoint supports, zeros of either sign) are a required class for which the statement's 'a.b >= 0' case is demanded exactly. lerp is also checked in f64 (amounts up to 1e17, equal and nearly equal operands) and on integer vectors over the whole range (outcome: value or overflow panic). nlerp/slerp are also checked on Quaternion<f32> with tolerances of their own. The constant-speed tolerance is 4e-13 rad (f64) / 3e-6 rad (f32) plus the conditioning of the measurement; nearly orthogonal pairs are a required class.",
    note=EX+"The arc is measured as 2 atan2(|a-b'|,|a+b'|); the frame used for the in-plane test is known to eps/Omega, which is added to the tolerance; either target accepted when |a.b| <= 1e-12.",
    technique="property-based testing: exact-field oracle (lerp) + validity predicate with threshold-targeted generators (nlerp/slerp)", design="6/C14"),
  "C08": dict(
-   text="Exploration. One generic law-checker (composition on points and vectors, concat_self, one(), displacement independence, inverse presence and undoing, inverse_transform_vector) is instantiated for all five Transform impls over Q and Fp with exactly unit rotations, zero/negative scales, singular and fully projective matrices; Decomposed-specific clauses (s*t, explicit formulas, Matrix4/Matrix3::from commuting with apply/compose/invert/one) exactly; the |scale|>1e-6 threshold clause on f64 with scales 0, 5e-324..1e-6, just above 1e-6, ordinary; matrix impls in f64 must invert whenever the determinant is non-zero (determinants down to 1e-150) and M(D^-1) = M(D)^-1. Affine matrices times a scalar (bottom row (0,..,0,k)) are a required class for Matrix4 and for Matrix3 as a 2-D transform (this class exposed the defect fixed in 5996e8e). One's provided methods (set_one, is_one) and one() as neutral element of every composition form are part of the laws. matrix_compose-f64 compares concat/concat_self/* entry by entry with a right factor that is (nearly) the identity.",
+   text="Exploration. One generic law-checker (composition on points and vectors, concat_self, one(), displacement independence, inverse presence and undoing, inverse_transform_vector) is instantiated for all five Transform impls over Q and Fp with exactly unit rotations, zero/negative scales, singular and fully projective matrices; Decomposed-specific clauses (s*t, explicit formulas, Matrix4/Matrix3::from commuting with apply/compose/invert/one) exactly; the |scale|>1e-6 threshold clause on f64 with scales 0, 5e-324..1e-6, just above 1e-6, ordinary; matrix impls in f64 must invert whenever the determinant is non-zero (determinants down to 1e-150) and M(D^-1) = M(D)^-1. Affine matrices times a scalar (bottom row (0,..,0,k)) are a required class for Matrix4 and for Matrix3 as a 2-D transform (this class exposed the defect fixed in 5996e8e). One's provided methods (set_one, is_one) and one() as neutral element of every composition form are part of the laws. matrix_compose-f64 compares concat/concat_self/* entry by entry with a right factor that is (nearly) the identity. Scales whose reciprocal is subnormal (1e300..1.7e308) must invert.",
    note=EX+"Vector clauses for matrix impls are asserted on affine matrices only; for 0<|scale|<=1e-6 either None or a correct inverse is accepted; f64 tolerances are eps*(|p|+|disp|/|scale|).",
    technique="property-based testing: generic law checker over all Transform implementations, exact fields + f64 threshold classes", design="6/C08"),
  "C09": dict(
@@ -64,11 +64,11 @@ ALL = {
    note=EX+"General position (up not parallel to dir; f64: >= 0.05 rad). The deprecated Transform::look_at is not claimed.",
    technique="property-based testing: validity-predicate oracle on exact rational frames (Q) + toleranced f64 search", design="6/C09"),
  "C10": dict(
-   text="Exploration. ortho/frustum/perspective/planar (free functions and struct conversions) against the mapping stated in the property: corner images, affinity, w=-z, perspective == frustum of the symmetric window (independent glFrustum table), to_perspective fields, planar window/near/far/focal point; exactly in Q (Fp for ortho) with named angles for fovy, and within 1e-11 (conditioning-scaled) in f64 including Deg input, fovy=0 and negative fovy for planar. Rejection: a valid tuple with exactly one of the 15 preconditions broken, at the boundary and beyond, must panic (catch_unwind) and the unbroken tuple must not; all 15 reasons are required classes. Scale covariance: every tuple is also taken with its lengths multiplied by 2^k (|k| <= 300; >= -30 for perspective/planar) and the matrix must be the scaled matrix to 16 ulps per entry; fovy is drawn over the whole of (0, pi) down to 1e-9 rad from either end. Valid tuples include near/far planes a few ulps apart.",
+   text="Exploration. ortho/frustum/perspective/planar (free functions and struct conversions) against the mapping stated in the property: corner images, affinity, w=-z, perspective == frustum of the symmetric window (independent glFrustum table), to_perspective fields, planar window/near/far/focal point; exactly in Q (Fp for ortho) with named angles for fovy, and within 1e-11 (conditioning-scaled) in f64 including Deg input, fovy=0 and negative fovy for planar. Rejection: a valid tuple with exactly one of the 15 preconditions broken, at the boundary and beyond, must panic (catch_unwind) and the unbroken tuple must not; all 15 reasons are required classes. Scale covariance: every tuple is also taken with its lengths multiplied by 2^k (|k| <= 300; >= -30 for perspective/planar) and the matrix must be the scaled matrix to 16 ulps per entry; fovy is drawn over the whole of (0, pi) down to 1e-9 rad from either end. Valid tuples include near/far planes a few ulps apart. Very deep volumes (far/near beyond the range of the scalar type) are mapped correctly in f64 and f32.",
    note=EX+"Valid domain excludes l==r, b==t, n==f and height==0 (division by zero), and for perspective/planar planes closer than machine epsilon in absolute terms (the constructors' own 'too close' assertion).",
    technique="property-based testing: mapping-predicate oracle (exact Q + f64) and single-fault rejection enumeration", design="6/C10"),
  "C16": dict(
-   text="Exploration over a completely enumerated configuration space. Every view and conversion of Vector1-4, Point1-3, Matrix2-4 and Quaternion (arrays, tuples, references to both, flat column-major arrays, raw pointers, Index/IndexMut by usize and by every range, mint types incl. EulerAngles<_,IntraXYZ>, map/zip/from_value/extend/truncate/truncate_n/swap_elements, conv::array*) is exercised for every slot and every mutable view, with 12 element types (8 numeric, char, a Copy struct, &str, String where the impl has no numeric bound); out-of-range and inverted indices must panic; all 550 swizzle words are generated by the harness' own build script (counts asserted). Random tags per case guard against accidental agreement. Matrix swap_elements/swap_rows/swap_columns/replace_col/row/indexing must panic for an index out of range in any single position. Out-of-range indices are also probed on the write path (Quaternion, matrices).",
+   text="Exploration over a completely enumerated configuration space. Every view and conversion of Vector1-4, Point1-3, Matrix2-4 and Quaternion (arrays, tuples, references to both, flat column-major arrays, raw pointers, Index/IndexMut by usize and by every range, mint types incl. EulerAngles<_,IntraXYZ>, map/zip/from_value/extend/truncate/truncate_n/swap_elements, conv::array*) is exercised for every slot and every mutable view, with 12 element types (8 numeric, char, a Copy struct, &str, String where the impl has no numeric bound); out-of-range and inverted indices must panic; all 550 swizzle words are generated by the harness' own build script (counts asserted). Random tags per case guard against accidental agreement. Matrix swap_elements/swap_rows/swap_columns/replace_col/row/indexing must panic for an index out of range in any single position. Out-of-range indices are also probed on the write path (Quaternion, matrices). from_value is compared bit for bit (from_value_bits-*).",
    note=EX+"Parametricity: routing is generic in the element type, so one all-distinct assignment per configuration decides it. Pointer views are dereferenced in bounds only; UB that does not manifest is not detected here (ASan fuzz build in the thorough tier).",
    technique="property-based testing: exhaustive configuration enumeration with generated tag values against index-table reference", design="6/C16"),
  "C17": dict(
@@ -84,7 +84,7 @@ ALL = {
    note="Trusted: num_traits' scalar NumCast. All NaNs are identified when comparing.",
    technique="property-based testing: differential oracle against per-component scalar NumCast over the full type-pair matrix", design="6/C19"),
  "C20": dict(
-   text="Exploration. Every Serialize/Deserialize type (24 shapes x f32/f64, plus integer vectors/points) is round-tripped through serde_json::Value and through JSON text (float_roundtrip) with components from raw finite bit patterns (-0.0, subnormals, MIN_POSITIVE, MAX over-represented); the serialized Value must equal the documented field structure built by the harness; results are compared bit for bit with per-component scalar round trips through the same carrier. Decomposed: all 6 field orders must deserialise to the same value; each single omission (both remaining orders) and an unknown field at each of 4 positions must be Err (never Ok, never a panic). Serialized trees and texts are compared with the expected structure bit for bit (-0.0). The round trip also goes through a non-human-readable serde format.",
+   text="Exploration. Every Serialize/Deserialize type (24 shapes x f32/f64, plus integer vectors/points) is round-tripped through serde_json::Value and through JSON text (float_roundtrip) with components from raw finite bit patterns (-0.0, subnormals, MIN_POSITIVE, MAX over-represented); the serialized Value must equal the documented field structure built by the harness; results are compared bit for bit with per-component scalar round trips through the same carrier. Decomposed: all 6 field orders must deserialise to the same value; each single omission (both remaining orders) and an unknown field at each of 4 positions must be Err (never Ok, never a panic). Serialized trees and texts are compared with the expected structure bit for bit (-0.0). The round trip also goes through a non-human-readable serde format. An omission masked by a repeated key must be rejected.",
    note="Trusted: serde / serde_json scalar impls. Finite values only. Field-order permutations are fed as text because serde_json's Value map is key-ordered.",
    technique="property-based testing: round-trip oracle over two carriers + structural reference + enumerated field-order/omission/unknown-field cases", design="6/C20"),
 }
